@@ -9,7 +9,8 @@ TRUSTED = [
     "correspondence: bulk transfers through routes of 1-3 real queues each way; every packet at the probes, every completion and the final totals must equal the world model's prediction",
 ]
 ASSUME = ["PARTIAL: 'eventually delivered' (liveness under fair timing) is not proved; what is proved are quiescence-safety invariants of the mechanism (no reachable state with a pending read and deliverable data, etc.) and what is checked is that generated transfers complete",
-          "side conditions of the statement: every finite queue can hold at least one full segment incl. overhead; with finite queues payload flows in one direction at a time; no foreign traffic; drops only by the queues themselves"]
+          "side conditions of the statement: every finite queue can hold at least one full segment incl. overhead; with finite queues payload flows in one direction at a time; no foreign traffic; drops only by the queues themselves",
+          "generator restriction (open finding corpus/_defects/c06_accepted_writer_behind_synack.scn): an accepted socket does not start writing inside its accept handler when some queue on its forward path has 0 < cap < one segment + 28 bytes (the SYN-ACK still queued there makes the queue drop the whole first window, after which nothing triggers a resend)"]
 
 def spec_c06(impl, scn):
     return progress.check(impl, scn)
@@ -18,7 +19,7 @@ def nontrivial(impl):
     return sum(1 for l in impl if l.startswith("H ")) >= 4
 
 CHECK = ScenarioCheck("C06", ["SimVerif.Props.C06"], "kernel", gen.generate, spec_c06, nontrivial,
-    "one connection whose sockets stay open; self-perpetuating writer and reader; routes of 1-3 queue hops each way with bandwidth 0 or 5 kB/s-50 MB/s, latency 0-500 ms, capacity unlimited or from exactly one full segment up to megabytes incl. receiver-side bottlenecks; path MTU 100-3000; transfers 1 B-2 MB with write chunks 1 B-1 MB and read buffers 1 B-64 kB; reverse transfer simultaneously (unlimited queues) or afterwards; accept posted before or after the SYN; non-trivial = >= 4 completions; distinct = distinct trace",
+    "one connection whose sockets stay open; self-perpetuating writer and reader, the main sender being the connecting or (every other scenario) the accepted socket; routes of 1-3 queue hops each way with bandwidth 0 or 5 kB/s-50 MB/s, latency 0-500 ms, capacity unlimited or from exactly one full segment up to megabytes incl. receiver-side bottlenecks; path MTU 100-3000; transfers 1 B-2 MB with write chunks 1 B-1 MB and read buffers 1 B-64 kB; reverse transfer simultaneously (unlimited queues, bulk both ways) or afterwards; accept posted before or after the SYN; quick tier: 400 scenarios of at most 400 segments each, 80 % with finite queues, half of those sending >= 5 x the tightest forward capacity; besides the progress clauses at quiescence the monitor flags any write/read completion with an error on an established connection nobody closed (no_spurious_error) and connects/accepts that fail; non-trivial = >= 4 completions; distinct = distinct trace",
     TRUSTED, ASSUME, spec_scn=True)
 
 def run(tier, seed, replay):
